@@ -478,7 +478,7 @@ func configValidText(r *Rng, k configKind) string {
 		return Pick(r, []string{"0", "5", "0x10", "18446744073709551615", "017", "", "0644", "0b1", "1_0"})
 	case ckString:
 		return Pick(r, []string{"", "a", "a=b", "-b", "--", "-", "=", "x y", "\x00", "\xff\xfe", "-n=3", "true",
-			"welcome\n", "\r\n", " lead", "trail ", "$HOME", "${x}", "%s", "tab\t", "a=b=c", "==", "QQ==", "\"q\"", "'q'", "~"})
+			"welcome\n", "\r\n", " lead", "trail ", "$HOME", "${x}", "%s", "tab\t", "a=b=c", "==", "QQ==", "\"q\"", "'q'", "~", "/etc/hostname", "C:\\dir\\", "/*x*/"})
 	case ckFloat64:
 		return Pick(r, []string{"0", "1.5", "-2e10", "inf", "-Inf", "nan", "0x1p-2", "1e308", "4.9e-324", ""})
 	case ckDuration:
